@@ -21,6 +21,8 @@ pub struct Scen {
     pub cands: Vec<usize>,
     /// None = all subsets of cands (bitmask); Some(list) = explicit list of cut sets
     pub sets: Option<Vec<Vec<usize>>>,
+    /// every read returns at most this many bytes
+    pub uniform: usize,
 }
 
 impl Scen {
@@ -36,6 +38,7 @@ impl Scen {
             expected,
             cands: Vec::new(),
             sets: None,
+            uniform: usize::MAX,
         }
     }
     pub fn count(&self) -> u64 {
@@ -122,6 +125,11 @@ impl Family for ChunkFamily {
         }
         let mut sim = sim_for(&sc.stream, cuts);
         sim.log_ops = false;
+        sim.uniform_read = sc.uniform;
+        if sc.uniform != usize::MAX {
+            st.bump("uniform_read_sizes");
+            st.nontrivial += 1;
+        }
         let o = run_conn(sim, ConnCfg::new(std_behave()));
         st.transitions += (o.sim.n_reads + o.sim.n_writes + o.sim.n_flushes) as u64;
         if o.sim.n_reads > 3 {
@@ -154,17 +162,17 @@ fn small_cmd(kind: u8, text: &[u8]) -> (ClientCmd, Cb) {
 }
 
 /// all sequences of 1..=3 commands whose payload lengths are in {1,2,3}; kinds rotate
-fn small_sequences(max_n: usize) -> Vec<Scen> {
+fn small_sequences(max_n: usize, max_len: usize) -> Vec<Scen> {
     let mut v = Vec::new();
     let mut serial = 0usize;
     for ncmd in 1..=3usize {
-        let combos = 3usize.pow(ncmd as u32);
+        let combos = max_len.pow(ncmd as u32);
         for c in 0..combos {
             let mut lens = Vec::new();
             let mut x = c;
             for _ in 0..ncmd {
-                lens.push(1 + x % 3);
-                x /= 3;
+                lens.push(1 + x % max_len);
+                x /= max_len;
             }
             let n: usize = lens.iter().map(|l| 4 + l).sum();
             if n > max_n {
@@ -354,24 +362,98 @@ fn fragmented(quick: bool) -> Vec<Scen> {
     v
 }
 
+/// single-packet payloads around 2^15, 2^16, 2^17, 2^20 and a few millions
+fn size_classes(quick: bool) -> Vec<Scen> {
+    let mut sizes: Vec<usize> = Vec::new();
+    for c in [1usize << 15, 1 << 16, 1 << 20] {
+        for d in -4i64..=4 {
+            sizes.push((c as i64 + d) as usize);
+        }
+    }
+    sizes.extend([12_345, 100_000, (1 << 17) - 1, 1 << 17, 500_000, 3_000_000]);
+    if quick {
+        sizes.retain(|s| [(1usize << 15) - 3, 1 << 15, (1 << 16) - 1, 1 << 16, (1 << 16) + 1, 100_000, 1 << 20, (1 << 20) + 1, 3_000_000].contains(s));
+    }
+    let mut v = Vec::new();
+    for s in sizes {
+        let a = ascii_pattern(s - 1, 5);
+        let (c1, cb1) = small_cmd(COM_QUERY, &a);
+        let (c2, cb2) = small_cmd(COM_STMT_PREPARE, b"k");
+        let (c3, cb3) = small_cmd(COM_QUERY, b"zz");
+        let conv = Conv::new(vec![c1, c2, c3]);
+        let mut sc = Scen::new(format!("H + query of {} payload bytes + 2 small commands", s), conv, vec![auth_cb(), cb1, cb2, cb3]);
+        let mut cands: Vec<usize> = Vec::new();
+        for h in sc.headers.clone() {
+            for d in [-1i64, 0, 1, 3, 4, 5] {
+                let p = h as i64 + d;
+                if p > 0 && (p as usize) < sc.stream.len() {
+                    cands.push(p as usize);
+                }
+            }
+        }
+        for t in [4096usize, 32768, 65536] {
+            if t < sc.stream.len() {
+                cands.push(t);
+            }
+        }
+        cands.sort();
+        cands.dedup();
+        sc.sets = Some(subsets_upto(&cands, if quick { 1 } else { 2 }));
+        v.push(sc);
+    }
+    v
+}
+
+/// hundreds of commands delivered in few reads
+fn deep_pipeline(quick: bool) -> Vec<Scen> {
+    let n = if quick { 300 } else { 1200 };
+    let mut cmds = Vec::new();
+    let mut exp = vec![auth_cb()];
+    for i in 0..n {
+        let kind = KINDS[i % 3];
+        let text = format!("c{}-{}", i, "x".repeat(i % 23));
+        let (c, cb) = small_cmd(kind, text.as_bytes());
+        cmds.push(c);
+        exp.push(cb);
+    }
+    let conv = Conv::new(cmds);
+    let mut v = Vec::new();
+    // one cut at (almost) every position
+    let mut sc = Scen::new(format!("H + {} pipelined small commands, one cut", n), conv.clone(), exp.clone());
+    let step = if quick { 5 } else { 1 };
+    let singles: Vec<Vec<usize>> = std::iter::once(vec![]).chain((1..sc.stream.len()).step_by(step).map(|p| vec![p])).collect();
+    sc.sets = Some(singles);
+    v.push(sc);
+    // uniform read sizes
+    for u in [1usize, 2, 3, 5, 7, 64, 1000, 4095, 4096, 4097] {
+        let mut sc = Scen::new(format!("H + {} pipelined small commands, reads of at most {} bytes", n, u), conv.clone(), exp.clone());
+        sc.sets = Some(vec![vec![]]);
+        sc.uniform = u;
+        v.push(sc);
+    }
+    v
+}
+
 pub fn build(quick: bool) -> Check {
-    let small = ChunkFamily::new("small-all-compositions", small_sequences(if quick { 17 } else { 21 }));
+    let small = ChunkFamily::new("small-all-compositions", small_sequences(if quick { 17 } else { 23 }, if quick { 3 } else { 4 }));
     let phase = ChunkFamily::new("handshake-phase-boundary", phase_boundary(quick));
     let thr = ChunkFamily::new("buffer-thresholds", thresholds(quick));
     let mut frag = ChunkFamily::new("fragmented-payloads", fragmented(quick));
     frag.threads = Some(8);
+    let sizes = ChunkFamily::new("payload-size-classes", size_classes(quick));
+    let deep = ChunkFamily::new("deep-pipeline", deep_pipeline(quick));
     Check {
         id: "C01",
         level: "model_checking",
-        rule: "every execution is one complete run of the real run_on over a scripted transport; schedules are sets of cut positions no read() may cross (all 2^n sets for streams of <= 17 (quick) / 21 (thorough) command bytes; all sets of <= 2-3 cuts for longer streams; <= 1-2 cuts around fragment headers for 16-32 MiB payloads). Non-trivial = some read ends strictly inside a packet header or one read spans two messages.".into(),
+        rule: "every execution is one complete run of the real run_on over a scripted transport; schedules are sets of cut positions no read() may cross (all 2^n sets for streams of <= 17 (quick) / 23 (thorough) command bytes; all sets of <= 2-3 cuts for longer streams; <= 1-2 cuts around fragment headers for 16-32 MiB payloads; single-packet payloads around 2^15, 2^16, 2^17, 2^20 and up to 3 MB with <= 1-2 cuts; 300/1200 pipelined commands with a cut at (every fifth /) every position and under uniform read sizes 1..4097). Non-trivial = some read ends strictly inside a packet header or one read spans two messages.".into(),
         assumptions: vec![
             "1-byte reads over multi-megabyte payloads are not run (the implementation re-parses per read); they are covered exhaustively at small sizes".into(),
             "the oracle is the shim's callback log plus a strict client-side decode of all replies".into(),
         ],
-        bounds: json!({"small_max_command_bytes": if quick {17} else {21}, "phase_max_cuts": if quick {2} else {3}, "threshold_max_cuts": 2, "fragment_max_cuts": if quick {1} else {2}}),
+        bounds: json!({"small_max_command_bytes": if quick {17} else {23}, "phase_max_cuts": if quick {2} else {3}, "threshold_max_cuts": 2, "fragment_max_cuts": if quick {1} else {2}}),
         exhaustive: true,
         caps_hit: vec![],
-        families: vec![Box::new(small), Box::new(phase), Box::new(thr), Box::new(frag)],
-        required: vec!["reads_ending_inside_a_header", "reads_spanning_two_messages", "executions_with_more_than_3_reads"],
+        families: vec![Box::new(small), Box::new(phase), Box::new(thr), Box::new(frag), Box::new(sizes), Box::new(deep)],
+        required: vec!["reads_ending_inside_a_header", "reads_spanning_two_messages", "executions_with_more_than_3_reads", "uniform_read_sizes"],
     }
 }
